@@ -68,3 +68,38 @@ fn(F + "_checkout", props=["C26"], types=T, returns="Fairy", consts={"exc.Discon
             "pool.returned == old(pool.returned)"],
    may_raise={"BaseException": "True"},
    modifies=["*"])
+
+# ---- _ConnectionRecord.checkout itself, proved.  (`_checkout` above keeps using the summary `checkout@new`, which additionally treats the
+# record as unaliased ("fresh") -- records are pooled objects, so the proved contract below cannot and does not say that; swapping it in
+# made every path of `_checkout` infeasible, which the vacuity guard reports; not resolved in this build.)  The only thing taken from the pool
+# implementation is `_do_get` (QueuePool._do_get etc.: proved under C25 in their own vocabulary): it yields a record of this pool
+# that no fairy refers to, whose connection -- if it still has one -- is open and has no detected disconnect.
+cls("WRef", fields={})        # a weakref.ref object (never None)
+CLASSES["PoolC"].methods.update({"_do_get": "pool/base.py::Pool._do_get@rec"})
+CLASSES["PoolC"].fields.update({"_g_got": "seqv"})
+fn("pool/base.py::Pool._do_get@rec", abstract=True, cls="PoolC", params=["self"], returns="CRecord", modifies=["self._g_got"],
+   ensures=["result is not None", "result.__pool is self", "result.fairy_ref is None",
+            "implies(result.dbapi_connection is not None, not result.dbapi_connection.closed and not result.dbapi_connection._g_dead)",
+            "self._g_got == old(self._g_got) + [result]"],
+   may_raise={"BaseException": "True"}, exc_ensures={"BaseException": ["self._g_got == old(self._g_got)"]},
+   notes="pool implementation's _do_get(): a record of this pool that is not checked out (ghost log of records taken), or raises with none taken")
+fn("pool/base.py::Pool._should_log_debug@any", abstract=True, cls="PoolC", params=["self"], returns="bool", modifies=[])
+CLASSES["PoolC"].methods.update({"_should_log_debug": "pool/base.py::Pool._should_log_debug@any"})
+RC = "result._connection_record"
+fn("pool/base.py::_ConnectionRecord.checkout", props=["C26"], returns="Fairy",
+   types={"pool": "PoolC", "rec": "CRecord", "dbapi_connection": "DBConn", "err": "v", "echo": "bool", "fairy": "Fairy", "ref": "v",
+          "_strong_ref_connection_records": "dict", "expr:pool._g_got[j]": "CRecord"},
+   consts={"TYPE_CHECKING": ("bool", False), "_finalize_fairy": "class"},
+   callees={"weakref.ref": "newobj:WRef", "pool.logger.debug": "noop", "_ConnectionFairy": "construct:Fairy", "cast": "identity",
+            "_finalize_fairy": "noop"},     # only named inside the weakref callback (a lambda that is created here, not run)
+   ensures=[RC + " is not None", RC + ".__pool is pool", "result.dbapi_connection is " + RC + ".dbapi_connection", "result.dbapi_connection is not None",
+            "not result.dbapi_connection.closed", "not result.dbapi_connection._g_dead", "result._counter == 0", RC + ".fairy_ref is not None",
+            # exactly one record was taken from the pool, and it is the one the fairy wraps; it is not handed back
+            "pool._g_got == old(pool._g_got) + [" + RC + "]", "pool.returned == old(pool.returned)"],
+   may_raise={"BaseException": "True"},
+   # a failed checkout keeps nothing: either no record was taken, or the one taken has no connection any more (closed) and no fairy
+   exc_ensures={"BaseException": ["len(pool._g_got) <= old(len(pool._g_got)) + 1", "pool._g_got[:old(len(pool._g_got))] == old(pool._g_got)",
+                                  "all(pool._g_got[j].dbapi_connection is None for j in range(old(len(pool._g_got)), len(pool._g_got)))",
+                                  # a record that was taken is handed to _checkin_failed (its contract: emptied and returned to the pool once)
+                                  "implies(len(pool._g_got) > old(len(pool._g_got)), attempted('rec._checkin_failed'))"]},
+   modifies=["*"])
